@@ -659,6 +659,35 @@ func runC06run(ctx *Ctx) *Result {
 			}
 		}
 	}
+	// diagnostics that are emitted AFTER the last command line argument has been checked (the inter-package checks of
+	// -Cglobal at the end of a -r run over the whole tree): on the pristine base fixture they are the only diagnostics of
+	// the run, so the exit status, the summary and "Looks fine." depend on them alone
+	{
+		late := NewBaseTree(filepath.Join(ctx.Work, "late"))
+		late.Write("licenses/unused-license", "An unused license\n")
+		late.Write("Makefile", lines(cvsID, "", "SUBDIR+=\tcat", ""))
+		for _, extra := range [][]string{{"-Werror"}, {"-Wall", "-Werror"}, {}, {"-Werror", "-q"}, {"-Werror", "-g"}, {"-Werror", "-s"}, {"-Wall,no-error"}, {"-Werror", "-e"}} {
+			c := c06Case{Tree: -1, Root: late.Root, Cwd: "."}
+			for _, a := range extra {
+				switch {
+				case a == "-g":
+					c.Gcc = true
+				case a == "-q":
+					c.NoSum = true
+				}
+			}
+			var eff c06WFlags
+			for _, a := range extra {
+				if strings.HasPrefix(a, "-W") {
+					eff.apply(a[2:])
+				}
+			}
+			c.Werror = eff.Error
+			c.Args = append(append([]string{}, extra...), "-Cglobal", "-r", ".")
+			cases = append(cases, c)
+			res.Count("run.late-diagnostics-only", 1)
+		}
+	}
 	ck := &c06Checker{ctx: ctx, res: res, cache: map[string]c06Line{}}
 	ck.runAndCheck(cases)
 	for _, c := range cases {
@@ -681,7 +710,7 @@ func runC06run(ctx *Ctx) *Result {
 	}
 	// coverage floors
 	floors := map[string]int{"diag.with-escaped-byte": 200, "diag.lineno.range-valid": 30, "diag.lineno-with-escaped-path": 30, "line.source": 100, "line.indented": 100,
-		"line.summary": 50, "line.looksfine": 1, "line.hint": 50, "diag.AUTOFIX": 20, "diag.NOTE": 20, "run.warnings-only-Werror": 10, "run.warnings-only/-W shape: error-then-all/none, effective": 4, "run.warnings-only/-W shape: error given, switched off again": 2, "option.-q": 10, "option.-F": 10, "option.--only": 10}
+		"line.summary": 50, "line.looksfine": 1, "line.hint": 50, "diag.AUTOFIX": 20, "diag.NOTE": 20, "run.warnings-only-Werror": 10, "run.late-diagnostics-only": 8, "run.warnings-only/-W shape: error-then-all/none, effective": 4, "run.warnings-only/-W shape: error given, switched off again": 2, "option.-q": 10, "option.-F": 10, "option.--only": 10}
 	for _, k := range sortedKeys(floors) {
 		// a missed floor makes a PASS meaningless; when violations were found they are the result
 		if d(k) < floors[k] && len(res.Violations) == 0 {
